@@ -48,6 +48,9 @@ impl SparqlValue {
                 }
                 match &dt[xsd::PREFIX.len()..] {
                     "integer" => Some(Self::Number(SparqlNumber::try_parse_integer(lex)?)),
+                    // NB: the parsers of Rust and bigdecimal accept more than the XSD lexical spaces
+                    "decimal" if !_number::is_decimal_lexical(lex) => None,
+                    "float" | "double" if !_number::is_float_lexical(lex) => None,
                     "decimal" => Some(Self::Number(SparqlNumber::try_parse::<BigDecimal>(lex)?)),
                     "float" => Some(Self::Number(SparqlNumber::try_parse::<f32>(lex)?)),
                     "double" => Some(Self::Number(SparqlNumber::try_parse::<f64>(lex)?)),
